@@ -48,7 +48,7 @@ TNext ==
        THEN /\ viol' = viol
             /\ acc' = Ev.acc
             /\ epoch' = IF Fresh(Ev) THEN 0 ELSE epoch + 1       \* the first compilation of a history is epoch 0
-            /\ cache' = MCache(Ev)
+            /\ cache' = IF ClearOnCompile THEN <<>> ELSE MCache(Ev)
        ELSE /\ viol' = viol \cup EncFailures(Ev)
             /\ acc' = Ev.acc /\ epoch' = MEpoch(Ev)
             /\ LET r == Req(Ev.req)
